@@ -7,6 +7,7 @@ pub mod inbound;
 pub mod iostate;
 pub mod limiter;
 pub mod payload;
+pub mod plstop;
 pub mod respq;
 pub mod selftest;
 pub mod sink;
@@ -33,7 +34,7 @@ pub fn run_stream(
 ) -> bool {
     // async engines: all cases of the input run on one single-threaded ntex runtime
     let lines: Vec<String> = match name {
-        "respq" | "selftest" | "sink3" | "sink5" | "inb3" | "inb5" | "cli3" | "cli5" | "hs" | "iostate" | "timerrt" => {
+        "respq" | "selftest" | "sink3" | "sink5" | "inb3" | "inb5" | "cli3" | "cli5" | "hs" | "iostate" | "timerrt" | "plstop3" | "plstop5" => {
             let mut text = String::new();
             inp.read_to_string(&mut text).unwrap();
             text.lines().map(str::to_string).collect()
@@ -43,6 +44,12 @@ pub fn run_stream(
     if name == "sink3" || name == "sink5" {
         // own runtime loop: a panic escaping the per-task guards ends one case, not the run
         for l in sink::run_lines(name == "sink5", lines) {
+            writeln!(out, "{l}").unwrap();
+        }
+        return true;
+    }
+    if name == "plstop3" || name == "plstop5" {
+        for l in plstop::run_lines(name == "plstop5", lines) {
             writeln!(out, "{l}").unwrap();
         }
         return true;
